@@ -20,6 +20,7 @@ CLAIMED = {
 
  'C07': ('command names of every stated length and add_argument sequences with a fresh-bytes renderer: acceptance, rollback and one-line framing decided by z3 on every path', '4 C07'),
  'C13': ('list building and rendering for 1..N commands with symbolic command bytes and the typed list impls (Vec, tuples 1..8) with symbolically failing conversions; framing and positional pairing asserted on every path', '4 C13'),
+ 'C15': ('every constructor/builder path of every predefined command with full-width symbolic integers and Bound pairs: the rendered request is tokenised by the port of MPD\'s tokenizer and compared word by word with an expectation table (numbers numerically, ranges as position sets via a probe position, durations against exact decimal arithmetic)', '4 C15'),
  'C20': ('every tag and subsystem variant against Other(symbolic name): ==, cmp, hash feed; Tag::try_from on all strings within the bounds and on every known name in every letter case; subsystem names through from_frame/as_str', '4 C20'),
  'C11': ('filter trees of every shape within the bounds, rendered inside a real find command and decoded by ports of MPD\'s tokenizer and filter parser; equality with the mirror tree decided by z3 on every path', '4 C11'),
  'C19': ('frames with symbolic keys under symbolic operation sequences and iteration patterns, responses under symbolic next/next_back/nth patterns, each observation compared with a list model on every path', '4 C19'),
@@ -35,8 +36,10 @@ def main():
     m = {
      'version': 1,
      'setup_cmd': './setup.sh',
-     'hooks': {'guard': 'cfg(kani)', 'enable': 'no source hooks are needed by the MIR engine (MIR ignores privacy); none committed',
-               'baseline_off_cmd': 'cd /repo && cargo test --workspace --no-fail-fast --offline', 'source_commits': [], 'add_only': True},
+     'hooks': {'guard': 'cargo feature mpd_protocol/verif-small-buffer (off by default)',
+               'enable': 'the native replay executor is built a second time with `--features small` (ws/replay: small = ["mpd_protocol/verif-small-buffer"]) on the symbolic side the interpreter substitutes the same constant value (const_override in props/conn_common.py), so the native replay of a small-buffer counterexample runs the hooked build; '
+                         'the only effect is DEFAULT_BUFFER_CAPACITY = 8 instead of 4096 so that receive-buffer growth and compaction are reached with short streams; no other hook exists (MIR ignores privacy)',
+               'baseline_off_cmd': 'cd /repo && cargo test --workspace --no-fail-fast --offline', 'source_commits': ['9e45100'], 'add_only': True},
      'engines': [{'name': 'mirsym', 'path': 'mirsym/', 'serves_properties': sorted(CLAIMED),
                   'kind_free_text': 'symbolic interpreter for rustc MIR (dumped from /repo on every run) with z3; library calls answered by contract models; native replay executor ws/replay'}],
      'checks': [], 'not_applicable': [],
